@@ -353,9 +353,9 @@ theorem psV5PublishTail_goodV {c : C} {p : Pkt} (h : GoodV c.s) (rel : Option Na
   · obtain ⟨m, hm⟩ := Option.isSome_iff_exists.1 hq.2
     have h1 := hc hq.1 m hm
     have h2 := h.credit m hm
-    have hnp : ¬ (c.s.sendCount ≥ 65535) := by omega
+    have hnp : ¬ (c.s.sendCount ≥ 4294967295) := by omega
     simp only [hq, and_self, if_true, hnp, if_false]
-    exact sendIfConnected_goodV (c := { c with s := { c.s with sendCount := (c.s.sendCount + 1) % 65536 } }) h _
+    exact sendIfConnected_goodV (c := { c with s := { c.s with sendCount := (c.s.sendCount + 1) % 4294967296 } }) h _
   · simp only [hq, if_false]
     exact sendIfConnected_goodV h _
 
@@ -608,18 +608,18 @@ def WfSent (p : Pkt) : Prop :=
 /-- the local contract of `send` in state `s` -/
 def SendOk (s : St) (p : Pkt) : Prop :=
   WfSent p ∧ (p.kind = .publish → PubIdOk s p) ∧
-  (p.kind = .pubrel → IdFresh s (p.pid.getD 0)) ∧ (p.kind = .connack → Headroom s)
+  (p.kind = .pubrel → IdFresh s (p.pid.getD 0))
 
-theorem processSend_goodV {c : C} {p : Pkt} (h : GoodV c.s) (hv : p.ver = c.s.ver)
+theorem processSend_goodV {c : C} {p : Pkt} (h : GoodV c.s) (hb : Headroom c.s) (hv : p.ver = c.s.ver)
     (hs : SendOk c.s p) : GoodV (processSend c p).s := by
-  obtain ⟨⟨_, hw⟩, hpub, hrel, hack⟩ := hs
+  obtain ⟨⟨_, hw⟩, hpub, hrel⟩ := hs
   unfold processSend
   split
   · cases hk : p.kind <;> simp only <;>
     first
       | exact h
       | exact psV3Connect_goodV h p
-      | exact psV3Connack_goodV h (hack hk) p
+      | exact psV3Connack_goodV h hb p
       | exact psV3Publish_goodV h hk hv (hpub hk)
       | exact psPubrel_goodV h hk hv (hrel hk)
       | exact psSubUnsub_goodV h p
@@ -629,7 +629,7 @@ theorem processSend_goodV {c : C} {p : Pkt} (h : GoodV c.s) (hv : p.ver = c.s.ve
   · cases hk : p.kind <;> simp only <;>
     first
       | exact psV5Connect_goodV h p
-      | exact psV5Connack_goodV h (hack hk) p
+      | exact psV5Connack_goodV h hb p
       | exact psV5Publish_goodV h hk hv (hw hk) (hpub hk)
       | exact psV5Puback_goodV h p
       | exact psV5Pubrec_goodV h p
@@ -647,7 +647,8 @@ theorem refuseSend_good {c : C} (h : Good c.s) (e : Nat) (p : Pkt) : Good (refus
   · exact releaseIfUsed_good (c := c.err e) h _
   · exact h
 
-theorem send_good {c : C} {p : Pkt} (h : Good c.s) (hs : SendOk c.s p) : Good (send c p).s := by
+theorem send_good {c : C} {p : Pkt} (h : Good c.s) (hb : Headroom c.s) (hs : SendOk c.s p) :
+    Good (send c p).s := by
   unfold send
   split
   · exact refuseSend_good h _ p
@@ -659,6 +660,6 @@ theorem send_good {c : C} {p : Pkt} (h : Good c.s) (hs : SendOk c.s p) : Good (s
         · exact e.symm
         · exact absurd e (by simpa using hv)
       have := hs.1.1
-      exact (processSend_goodV (h.goodV (by omega)) hv' hs).good
+      exact (processSend_goodV (h.goodV (by omega)) hb hv' hs).good
 
 end MqttVerif.Conn
